@@ -912,9 +912,11 @@ func (r *Reader) processHeading(h headingXML) parsedParagraph {
 	}
 
 	// Parse outline level
+	hasOutlineLevel := false
 	if h.OutlineLevel != "" {
 		if level, err := strconv.Atoi(h.OutlineLevel); err == nil && level >= 1 && level <= 9 {
 			parsed.Level = level
+			hasOutlineLevel = true
 		}
 	}
 
@@ -922,8 +924,9 @@ func (r *Reader) processHeading(h headingXML) parsedParagraph {
 	if r.styleResolver != nil {
 		resolved := r.styleResolver.Resolve(h.StyleName)
 		parsed.Alignment = resolved.Alignment
-		// If style has heading level, prefer that
-		if resolved.IsHeading && resolved.HeadingLevel > 0 {
+		// The heading's own text:outline-level is authoritative; the level of the
+		// style is only a fallback for headings that do not carry one
+		if !hasOutlineLevel && resolved.IsHeading && resolved.HeadingLevel > 0 {
 			parsed.Level = resolved.HeadingLevel
 		}
 	}
